@@ -54,10 +54,11 @@ Print Assumptions C13_nonvacuous_millis64.
 
 (* non-vacuity of the node-level theorem: the instance without group functions satisfies the hypothesis on gf; a cold node (64-bit build)
    at origin 5000 satisfies the bound for the shift c = 2^32 - 5100 (origin 100 ms before the 32-bit wrap); a script with open, claim,
-   an ISO request for the product information, a refused send (pending-information retry), heartbeat: the operations are admissible,
+   an ISO request for the product information answered into a refusing driver (queued, flushed later), heartbeat at a 1 s interval, an application send: the operations are admissible,
    and the shifted node produces the same events (here also checked by computation, independently of the theorem) *)
 Lemma gf_none_shift_ok c : gf_shift_ok c gf_none.
-Proof. intros r s H B. unfold gf_none, lift_res. cbn [fst snd]. repeat split; try reflexivity. exact H. Qed.
+Proof. intros r s H B. unfold gf_none, lift_res. cbn [fst snd]. split; [reflexivity|split; [exact H|split; reflexivity]]. Qed.
+Print Assumptions gf_none_shift_ok.
 
 Definition c13_ops : list rop :=
   [RPoll; RBase (OTick 1); RPoll; RBase (OTick 201); RPoll; RBase (OTick 251); RPoll;
@@ -65,14 +66,21 @@ Definition c13_ops : list rop :=
    RBase (OTick 362); RPoll; RBase (OTick 1); RBase (OAccept []); RPoll; RBase (OTick 1); RPoll;
    RSetHeartbeat 1000 0 (-1); RBase (OTick 1500); RPoll; RBase (OTick 1000); RPoll;
    RBase (OSend 0 {| m_pri := 6; m_pgn := 127250; m_src := 0; m_dst := 255; m_data := [1;2;3;4;5;6;7;8]; m_tp := false |})].
-Example C13_nonvacuous_node : forall cfg,
+Definition c13_cfg : rcfg :=
+  {| c_only_known := false; c_iso_handler := None; c_prodinfo := [1;2;3;4;5;6;7;8;9;10]; c_confinfo := [1;2;3]; c_hb_on := true;
+     c_inst1 := []; c_inst2 := []; c_manuf := []; c_inst_changed := false |}.
+Example C13_nonvacuous_node :
+  let cfg := c13_cfg in
   let c := 4294962196 in
   let r0 := cold_node true 1 5000 40 5 no_lists [mk_dev true 22 1 []] [[]] cfg in
-  time_ok c r0 /\ ops_ok c gf_none r0 c13_ops /  snd (rrun gf_none (shift_rnode c r0) c13_ops) = snd (rrun gf_none r0 c13_ops) /  (* the cold node at the other origin differs from the shifted one only in the not yet initialised SyncOffset (see the finding
+  time_ok c r0 /\ ops_ok c gf_none r0 c13_ops /\
+  snd (rrun gf_none (shift_rnode c r0) c13_ops) = snd (rrun gf_none r0 c13_ops) /\
+  (* the cold node at the other origin differs from the shifted one only in the not yet initialised SyncOffset (see the finding
      origin-hb-before-open) and behaves the same on this script *)
-  snd (rrun gf_none (cold_node true 1 (5000 + c) 40 5 no_lists [mk_dev true 22 1 []] [[]] cfg) c13_ops) = snd (rrun gf_none r0 c13_ops) /  length (filter (fun l => match l with [] => false | _ => true end) (snd (rrun gf_none r0 c13_ops))) = 7%nat.
+  snd (rrun gf_none (cold_node true 1 (5000 + c) 40 5 no_lists [mk_dev true 22 1 []] [[]] cfg) c13_ops) = snd (rrun gf_none r0 c13_ops) /\
+  length (filter (fun l => match l with [] => false | _ => true end) (snd (rrun gf_none r0 c13_ops))) = 7%nat.
 Proof.
-  intros cfg. cbv zeta. split; [|split; [|split; [|split]]].
+  cbv zeta. split; [|split; [|split; [|split]]].
   - constructor.
     + reflexivity.
     + vm_compute. split; reflexivity.
